@@ -98,6 +98,7 @@ def run(ctx, rep):
                "Lock.release / Condition.notify_all do not raise when used as checked by R13.1/R13.4",
                "the documented caveat of serve_threaded (nested sync requests) is out of scope")
 
+    K.connection_state(ctx, rep, "R13.9", ["_recvlock", "_recv_event", "_request_callbacks", "_seqcounter"])
     f, g, lock, cond, acq, acq_nodes, acq_edges, fail_edges, rel_nodes, held = serve_slots(ctx)
     rep.analysed(f, g)
     rep.floor("R13.1", "release sites of the receive lock in serve()", len(rel_nodes), 1)
@@ -310,7 +311,6 @@ def run(ctx, rep):
 
     # ---- R13.8
     K.share(ctx, rep, "c12", lambda o: o.rule in ("R12.1", "R12.2", "R12.3", "R12.5"), "R13.8", floor=8)
-    K.connection_state(ctx, rep, "R13.9", ["_recvlock", "_recv_event", "_request_callbacks", "_seqcounter"])
     from . import hygiene as H
     H.bound_once(ctx, rep, "R13.10", "rpyc.core.async_.AsyncResult", ["_conn"],
                  "a waiter that saw 'not ready' calls self._conn.serve() next; if another thread publishes the reply in between and "
